@@ -55,8 +55,35 @@ pub fn run(_tier: Tier, k: usize, ctx: &mut Ctx) {
                     }
                 }
             }
+                    // histories of depth 3: size -> size -> size (a high-water mark or a lazily cleared tail only shows on the third step)
+            for l1 in ICV_LENS {
+                for lm in ICV_LENS {
+                    for l2 in ICV_LENS {
+                        one::<t_net::Ah>(ctx, format!("IpAuthHeader::new(icv {} x 0xff) then set_raw_icv({} bytes, pattern 1) then set_raw_icv({} bytes, pattern 2)", l1, lm, l2), KEY, || {
+                            let icv2 = pat(2, 3, l2);
+                            let mut h = IpAuthHeader::new(IpNumber(17), 0x5a5b5c5d, 0xfffffffe, &pat(4, 0, l1)).ok()?;
+                            h.set_raw_icv(&pat(1, 5, lm)).ok()?;
+                            h.set_raw_icv(&icv2).ok()?;
+                            Some((h, IpAuthHeader::new(IpNumber(17), 0x5a5b5c5d, 0xfffffffe, &icv2).ok()?, rf::auth(17, 0x5a5b5c5d, 0xfffffffe, &icv2)))
+                        });
+                    }
+                }
+            }
         }
         1 => {
+            for l1 in RAW_LENS {
+                for lm in RAW_LENS {
+                    for l2 in RAW_LENS {
+                        one::<t_net::RawExt>(ctx, format!("Ipv6RawExtHeader::new_raw(payload {} x 0xff) then set_payload({} bytes, pattern 1) then set_payload({} bytes, pattern 2)", l1, lm, l2), KEY, || {
+                            let p2 = pat(2, 3, l2);
+                            let mut h = Ipv6RawExtHeader::new_raw(IpNumber(60), &pat(4, 0, l1)).ok()?;
+                            h.set_payload(&pat(1, 5, lm)).ok()?;
+                            h.set_payload(&p2).ok()?;
+                            Some((h, Ipv6RawExtHeader::new_raw(IpNumber(60), &p2).ok()?, rf::raw_ext(60, &p2)))
+                        });
+                    }
+                }
+            }
             for l1 in RAW_LENS {
                 for l2 in RAW_LENS {
                     for c2 in [0u64, 2] {
